@@ -1063,6 +1063,7 @@ func illFormedAnswer(x *lab.Exchange) string {
 
 var families = []workers.Family{
 	{Name: "devmod", Total: dmTotal, Run: runDevmod},
+	{Name: "authed", Total: authedTotal, Run: runAuthed},
 	{Name: "plain", Total: total("plain"), Run: runFamily("plain")},
 	{Name: "wire", Total: total("wire"), Run: runFamily("wire")},
 	{Name: "bytes", Total: total("bytes"), Run: runFamily("bytes")},
@@ -1082,7 +1083,7 @@ func main() {
 		r.Fatal("%v", err)
 	}
 	theTable = t
-	r.Rule(fmt.Sprintf("For %d configurations (key type x key encoding x key exchange x cipher suite x voucher length; half of them with one role per server) and EVERY message position of DI, TO0, TO1 and TO2 in both directions (%d sites), reached with the session state of all preceding honest steps, every member of three finite families is delivered in place of the honest message: (plain) all single-node structure-aware mutants of the plaintext (value, type, length, enum/algorithm identifiers from a fixed domain, null/absent, inflated length heads, recursing into bstr-wrapped CBOR), truncations and trailing data, delivered inside the TO2 tunnel where there is one, plus all such mutants of the signed payload and protected header of a COSE_Sign1 re-signed with the right key; (bytes) %d hostile byte strings (every single byte, length bombs, nesting to 64 KiB, 64 KiB bodies); (wire) all mutants of the bytes on the wire for encrypted positions and %d HTTP-level variants (path, method, Authorization, Message-Type, Content-Length, status). (devmod) every script  nummodules=N ; chunk ; chunk [; chunk]  of a deviating device over small domains of start index, declared length and number of names, in one message or one message per chunk, through the real TO2Server.Respond with the partially filled module list persisted between messages. Oracle: no panic, no hang (45 s), allocation <= %d + %d*len, the server's answer to a request on a valid message path is a well-formed FDO message. Cases run in worker subprocesses so that unrecoverable crashes are attributed to their case.", len(cfgsFor(r.Tier)), len(t.Sites), len(hostile()), len(httpVariants()), allocA0, allocK))
+	r.Rule(fmt.Sprintf("For %d configurations (key type x key encoding x key exchange x cipher suite x voucher length; half of them with one role per server) and EVERY message position of DI, TO0, TO1 and TO2 in both directions (%d sites), reached with the session state of all preceding honest steps, every member of three finite families is delivered in place of the honest message: (plain) all single-node structure-aware mutants of the plaintext (value, type, length, enum/algorithm identifiers from a fixed domain, null/absent, inflated length heads, recursing into bstr-wrapped CBOR), truncations and trailing data, delivered inside the TO2 tunnel where there is one, plus all such mutants of the signed payload and protected header of a COSE_Sign1 re-signed with the right key; (bytes) %d hostile byte strings (every single byte, length bombs, nesting to 64 KiB, 64 KiB bodies); (wire) all mutants of the bytes on the wire for encrypted positions and %d HTTP-level variants (path, method, Authorization, Message-Type, Content-Length, status). (devmod) every script  nummodules=N ; chunk ; chunk [; chunk]  of a deviating device over small domains of start index, declared length and number of names, in one message or one message per chunk, through the real TO2Server.Respond with the partially filled module list persisted between messages. (authed) for 4 key exchanges x 7 cipher suites, both directions: ~50 structurally odd inner COSE_Encrypt0 objects (ciphertext empty / 1 / 15 / 16 / 17 / 32 octets / null / mistyped; IV missing, of 10 lengths, mistyped; 19 algorithm identifiers, registered and not; empty or malformed header maps), for encrypt-then-MAC suites wrapped in a COSE_Mac0 whose tag is correctly recomputed with the session's key, delivered to the receiving session's Decrypt. Oracle: no panic, no hang (45 s), allocation <= %d + %d*len, the server's answer to a request on a valid message path is a well-formed FDO message. Cases run in worker subprocesses so that unrecoverable crashes are attributed to their case.", len(cfgsFor(r.Tier)), len(t.Sites), len(hostile()), len(httpVariants()), allocA0, allocK))
 	deadline := time.Now().Add(90 * time.Minute)
 	if r.Quick() {
 		deadline = time.Now().Add(20 * time.Minute)
